@@ -14,7 +14,7 @@ META = dict(
     explanation='The real glue code of rxsci.container.json (dump, load, dump_to_file, load_from_file and the pipelines they compose: dump -> encode -> compress -> file.write; file.read -> decompress -> decode -> line.unframe -> load) '
                 'runs over contract stubs of everything implemented in C: LineJSON for the serializer (dumps = injective newline-free text, bytes-like under the orjson flag; loads its inverse), the incremental codec models of C17, '
                 'StreamCodec of C16 for gzip/zstd and file objects with short reads (the 64 KiB read boundary becomes a cut at a small size). Items are symbolic texts standing for serialized objects (any character, raw newline, quote, backslash, non-ASCII, astral). '
-                'Asserted: the loaded items equal the dumped items, in order, one per object; an empty source gives a file that loads to nothing; every compression setting; file object and custom open_obj.',
+                'Asserted: the loaded items equal the dumped items, in order, one per object; an empty source gives a file that loads to nothing; every compression setting; file object and custom open_obj (opened once in binary mode, closed - and nothing written afterwards - by the time completion is signalled); utf-8 and utf-16 text encodings.',
     bounds=dict(quick='<= 2 objects of <= 1 symbolic character (3 objects of 0 characters), short reads at c1 and c1+1 (a one-byte chunk after a partial line / partial character) for every byte position c1 of the file (one obligation each for the uncompressed form, every 3rd position for compressed forms)',
                 thorough='<= 3 objects, <= 2 characters each'),
     outside='orjson / json, CPython codecs, zlib / zstandard themselves (contract-stubbed, each validated against the real library at run start); lines=False mode; skip / ignore_error options',
@@ -73,6 +73,7 @@ def lines(p):
 def file_rt(p):
     """params: lens, compression, c1 (short read position), as_bytes, open_obj (bool)"""
     lens, comp, c1, as_bytes = p['lens'], p['compression'], p['c1'], p['as_bytes']
+    enc = p.get('encoding', 'utf-8')
     sig = [('s%d' % i, 'str') for i in range(len(lens))]
     pre = ['len(s%d) == %d' % (i, l) for i, l in enumerate(lens)]
 
@@ -94,12 +95,16 @@ def file_rt(p):
                 target, kw = 'x.json', dict(open_obj=wopen)
             else:
                 target, kw = wb, {}
-            D.src(items).pipe(J.dump_to_file(target, compression=comp, **kw)).subscribe(on_error=lambda e: done.append(('ERR', repr(e))), on_completed=lambda: done.append('C'))
+            # at the moment completion is signalled the file must be complete: a consumer may read it back from the completion notification
+            D.src(items).pipe(J.dump_to_file(target, compression=comp, encoding=enc, **kw)).subscribe(on_error=lambda e: done.append(('ERR', repr(e))),
+                                                                                                   on_completed=lambda: done.append(('C', wb.closed, len(wb.parts))))
             data = wb.value()
-            if done != ['C']:
+            if len(done) != 1 or done[0][0] != 'C':
                 return fail(stage='dump_to_file', items=items, done=done)
-            if p.get('open_obj') and (opened != [('x.json', 'wb')] or not wb.closed):
-                return fail(stage='dump_to_file', problem='open_obj protocol', opened=opened, closed=wb.closed)
+            if done[0][2] != len(wb.parts):
+                return fail(stage='dump_to_file', problem='data written after completion was signalled', done=done, parts=len(wb.parts))
+            if p.get('open_obj') and (opened != [('x.json', 'wb')] or not wb.closed or not done[0][1]):
+                return fail(stage='dump_to_file', problem='open_obj protocol: the file opened through open_obj must be closed when completion is signalled', opened=opened, closed_at_completion=done[0][1], closed=wb.closed)
             f = shortread.ShortReadFile(data, [c1, c1 + 1])     # ...c1 | one byte | rest
             if p.get('open_obj'):
                 source, kw2 = 'x.json', dict(open_obj=lambda name, mode, encoding=None: f)
@@ -107,7 +112,7 @@ def file_rt(p):
                 source, kw2 = f, {}
             got = []
             end = []
-            J.load_from_file(source, compression=comp, **kw2).subscribe(on_next=got.append, on_error=lambda e: end.append(('ERR', repr(e))), on_completed=lambda: end.append('C'),
+            J.load_from_file(source, compression=comp, encoding=enc, **kw2).subscribe(on_next=got.append, on_error=lambda e: end.append(('ERR', repr(e))), on_completed=lambda: end.append('C'),
                                                                         scheduler=ImmediateScheduler())
         if got != items or end != ['C']:
             return fail(items=items, compression=comp, file_bytes=data, short_read_at=c1, observed=got, expected=items, end=end)
@@ -167,5 +172,11 @@ def obligations(tier, seed):
                 obs.append(Ob(PROP, 'file_rt', dict(lens=lens, compression=comp, c1=c1, as_bytes=True), budget=b, group='file:' + str(comp),
                               bound=dict(object_chars=lens, compression=comp, short_read_at=c1)))
         obs.append(Ob(PROP, 'file_rt', dict(lens=lens, compression=None, c1=2, as_bytes=False, open_obj=True), budget=b, group='file:open_obj', bound=dict(object_chars=lens, custom_open_obj=True)))
+        for comp in ('gzip', 'zstd'):
+            obs.append(Ob(PROP, 'file_rt', dict(lens=lens, compression=comp, c1=3, as_bytes=True, open_obj=True), budget=b, group='file:open_obj', bound=dict(object_chars=lens, custom_open_obj=True, compression=comp)))
+        if sum(lens) <= 1 or not q:
+            for comp in (None, 'gzip'):
+                for c1 in (3, 4, 7):
+                    obs.append(Ob(PROP, 'file_rt', dict(lens=lens, compression=comp, c1=c1, as_bytes=True, encoding='utf-16'), budget=b, group='file:utf-16', bound=dict(object_chars=lens, encoding='utf-16', compression=comp, short_read_at=c1)))
     obs.append(Ob(PROP, 'file_rt', dict(lens=[1, 1], compression='gzip', c1=5, as_bytes=True, _twin='reach'), budget=60, expect='refute'))
     return obs
